@@ -201,6 +201,10 @@ var plainStyledSkipPairs = map[string]string{
 // replaced by Latin words) converted by the library, destination bytes compared with the conversion through the plain
 // view: for these pairs the destination writer ignores everything the source reader sets besides times and text
 // (C07_any_source then applies to the styled document).
+// pairs of plainStyledSkipPairs whose styled conversion has its own Gallina model (coq/Model/Conv<S><F>.v): pair -> driver
+// suite taking (document) and returning the destination bytes; the library's bytes are compared with it
+var plainStyledModels = map[string]string{}
+
 func suiteConvertPlainStyled(R *runner, r *rng) {
 	R.rule("conversion of styled sources through the plain view: styled SubRip, WebVTT with regions/settings/tags/voices, SSA/ASS with styles/script info/override blocks, TTML with styles/regions (run texts = Latin words), every destination among the modelled codecs except the pairs listed with their reason in plainStyledSkipPairs; destination bytes of the library vs convert_plain")
 	N := 12
@@ -279,6 +283,25 @@ func suiteConvertPlainStyled(R *runner, r *rng) {
 			}
 			for _, dst := range plainCodecs {
 				pair := src.name + "->" + dst.name
+				if suite, ok := plainStyledModels[pair]; ok {
+					s2, _ := src.read(doc)
+					var out bytes.Buffer
+					o := &obs{Suite: suite, Group: "conv.styled." + pair, Input: (&enc{}).bytes(doc).String(), NT: true,
+						Human: map[string]interface{}{"source": src.name, "destination": dst.name, "document": string(doc)}}
+					R.count("conv.styled." + pair)
+					var werr error
+					p := safely(func() { werr = dst.write(s2, &out) })
+					switch {
+					case p != "":
+						o.Impl, o.Oracle, o.Sig = "2", fmt.Sprintf("%s -> %s panicked: %s", src.name, dst.name, p), "convstyled-panic"
+					case werr != nil:
+						o.Impl = "1"
+					default:
+						o.Impl = (&enc{}).n(0).bytes(out.Bytes()).String()
+					}
+					R.add(o)
+					continue
+				}
 				if _, skip := plainStyledSkipPairs[pair]; skip {
 					R.count("plain.styled.restricted." + pair)
 					continue
